@@ -54,8 +54,8 @@ class PoolSpec(Spec):
 
 
 class PoolExec(Exec):
-    def __init__(self, spec, ret):
-        Exec.__init__(self, spec); self.ret = ret
+    def __init__(self, spec, ret, fail=None):
+        Exec.__init__(self, spec); self.ret = ret; self.fail = fail
     def cond_value(self, e, env):
         # pool_pid != pid where pool_pid may be None (option Z)
         if isinstance(e, ast.Compare) and len(e.ops) == 1 and isinstance(e.ops[0], (ast.NotEq, ast.Eq)):
@@ -67,6 +67,12 @@ class PoolExec(Exec):
     def run(self, stmts, env, k):
         if stmts and isinstance(stmts[0], ast.Return):
             return self.ret(self, stmts[0], env)
+        # pool._connect() may raise (the DB-API connect fails): the oracle `connect_ok` decides; when it raises, the call ends
+        # there with the pool fields as they are at that very point
+        if stmts and isinstance(stmts[0], ast.Expr) and isinstance(stmts[0].value, ast.Call) \
+                and ast.unparse(stmts[0].value.func) == 'pool__connect' and self.fail is not None:
+            env2 = dict(env); env2['pool_con'] = Sym('(Some fresh)', 'option conn')
+            return '(if connect_ok\n then %s\n else %s)' % (Exec.run(self, stmts[1:], env2, k), self.fail(self, env))
         return Exec.run(self, stmts, env, k)
     def field(self, env, name, ty):
         v = env[name]
@@ -86,16 +92,20 @@ def translate_pool_connect():
         # the returned connection must be the pool's own field
         if ex.emit_opt(v.items[0]) != ex.field(env, 'pool_con', 'option conn'):
             raise TranslateError('Pool.connect: returns something else than pool.con')
-        return '(%s, %s, %s, %s)' % (ex.field(env, 'pool_con', 'option conn'), ex.field(env, 'pool_pid', 'option Z'),
-                                    ex.emit(env['pool_forked_connections']), ex.emit(v.items[1]))
-    ex = PoolExec(PoolSpec(fields, {}), ret)
+        return '(%s, %s, %s, %s, true)' % (ex.field(env, 'pool_con', 'option conn'), ex.field(env, 'pool_pid', 'option Z'),
+                                          ex.emit(env['pool_forked_connections']), ex.emit(v.items[1]))
+    def fail(ex, env):
+        return '(%s, %s, %s, false, false)' % (ex.field(env, 'pool_con', 'option conn'), ex.field(env, 'pool_pid', 'option Z'),
+                                               ex.emit(env['pool_forked_connections']))
+    ex = PoolExec(PoolSpec(fields, {}), ret, fail)
     env = {selfn: Sym('<self>', 'self'), 'pool_con': Sym('pool_con', 'option conn'), 'pool_pid': Sym('pool_pid', 'option Z'),
            'pool_forked_connections': Sym('pool_forked_connections', 'list (conn * option Z)')}
     body = ex.run(fdef.body, env, lambda e: ex.spec.fallthrough(ex, e))
-    return ('(* pony/orm/dbapiprovider.py:%d Pool.connect; result = (pool.con, pool.pid, forked_connections, is_new_connection) after the call;\n'
-            '   the connection handed to the caller is pool.con; `fresh` is what pool._connect() would create *)\n'
-            'Definition pool_connect (pid : Z) (pool_con : option conn) (pool_pid : option Z) (pool_forked_connections : list (conn * option Z)) (fresh : conn)\n'
-            '  : option conn * option Z * list (conn * option Z) * bool :=\n%s.\n' % (line, body))
+    return ('(* pony/orm/dbapiprovider.py:%d Pool.connect; result = (pool.con, pool.pid, forked_connections, is_new_connection, returned normally?) after\n'
+            '   the call; the connection handed to the caller is pool.con; `fresh` is what pool._connect() creates when `connect_ok`, otherwise\n'
+            '   pool._connect() raises and the call ends with the fields as they are at that point *)\n'
+            'Definition pool_connect (connect_ok : bool) (pid : Z) (pool_con : option conn) (pool_pid : option Z) (pool_forked_connections : list (conn * option Z)) (fresh : conn)\n'
+            '  : option conn * option Z * list (conn * option Z) * bool * bool :=\n%s.\n' % (line, body))
 
 
 def translate_ora_connect():
